@@ -58,7 +58,7 @@ def build(config, tier):
         t, n = ELEM[N]
         clauses = []  # (label, pre-statements, condition)
         # as_* casts
-        for m in re.finditer(r"pub fn (as_\w+)\(&?self\) -> (?:crate::)?(\w+)", src):
+        for m in re.finditer(r"pub (?:const )?fn (as_\w+)\(&?self\) -> (?:crate::)?(\w+)", src):
             meth, Y = m.group(1), m.group(2)
             if Y not in ELEM:
                 uncovered.append("%s::%s -> %s" % (N, meth, Y))
